@@ -141,3 +141,76 @@ class ScaledSetup(Contract):
         yield ('C16.scaled.mapping.scale_row', z3.And(lift(m.index.f(R)) == n, lift(m.cols['type'].f(R)) == sym.strlit('size'),
                                                       lift(m.cols['time_step'].f(R)) == 0, lift(m.cols['var_name'].f(R)) == sym.strlit('scale'),
                                                       lift(m.cols['node'].f(R)) == so.get('nodes')[0].get('name')))
+
+    # ------------------------------------------------------------------ run-time twin (numerical statement of the same clauses)
+    def schema(self, case):
+        return [('g_T', 'int', None)]
+
+    def sample(self, case, rng):
+        from pyvc import native as N
+        T = rng.randint(1, 5)
+        a = rng.randint(0, T - 1)
+        b = rng.randint(a + 1, T)
+        lo = [rng.choice([-2., -1., 0., .5, 1.]) for _ in range(T)]
+        return N.Params(g_T=T, win_a=a, win_b=b, lo=lo, hi=[x + rng.choice([0., .5, 2.]) for x in lo], min_scale=rng.choice([0., 1.]), max_scale=rng.choice([1., 3.]),
+                        norm_scale=rng.choice([1., 2., 4.]), fix_costs=rng.choice([0., .25]), dt=[rng.choice([1., 1., .5, 2.]) for _ in range(T)])
+
+    def native(self, case, P):
+        import numpy as np
+        import eaopack as eao
+        from pyvc import native as N
+        T = int(P['g_T'])
+        tg, syn = N.synthetic_grid(T, P.get('dt'))
+        pts = list(tg.timepoints) + [tg.end]
+        a, b = int(P['win_a']), int(P['win_b'])
+        node = eao.assets.Node('node0')
+        prices = {'lo': np.asarray(P['lo'], dtype=float), 'hi': np.asarray(P['hi'], dtype=float), 'p': np.arange(T) * 1. + 1.}
+
+        def base():
+            if case['rows']:
+                return eao.assets.Storage(name='base_name', nodes=node, size=3., cap_in=1., cap_out=2., start_level=1., end_level=1., price='p', start=pts[a], end=pts[b])
+            return eao.assets.SimpleContract(name='base_name', nodes=node, price='p', min_cap='lo', max_cap='hi', start=pts[a], end=pts[b])
+        sc = eao.assets.ScaledAsset(name='asset_name', base_asset=base(), start=pts[a], end=pts[b], min_scale=float(P['min_scale']), max_scale=float(P['max_scale']),
+                                    norm_scale=float(P['norm_scale']), fix_costs=float(P['fix_costs']))
+        tg2, _ = N.synthetic_grid(T, P.get('dt'))
+        ref = base().setup_optim_problem(prices, tg2)
+        ctx = dict(ref=ref, P=P, dur=float(np.sum(np.asarray(tg2.dt)[a:b])), synthetic=syn)
+        return (lambda: sc.setup_optim_problem(prices, tg, False)), ctx
+
+
+_sym_post = ScaledSetup.post
+
+
+def _post(self, H, case, outcome, I, ctx):
+    if I is not None:
+        yield from _sym_post(self, H, case, outcome, I, ctx)
+        return
+    import numpy as np
+    if outcome[0] != 'return':
+        yield ('C16.scaled.no_raise', False)
+        return
+    op = outcome[1].get('__real__')
+    ref, P = ctx['ref'], ctx['P']
+    n = len(ref.c)
+    S_, mx_, mn_ = float(P['norm_scale']), float(P['max_scale']), float(P['min_scale'])
+    ok_len = len(op.c) == n + 1 and len(op.l) == n + 1 and len(op.u) == n + 1
+    yield ('C16.scaled.var', bool(ok_len and np.isclose(op.l[n], mn_) and np.isclose(op.u[n], mx_) and np.isclose(op.c[n], float(P['fix_costs']) * ctx['dur'])))
+    if not ok_len:
+        return
+    yield ('C16.scaled.costs_of_base_kept', bool(np.allclose(op.c[:n], ref.c)))
+    yield ('C16.scaled.box', bool(np.allclose(op.l[:n], np.minimum(0., ref.l) * mx_ / S_) and np.allclose(op.u[:n], np.maximum(0., ref.u) * mx_ / S_)))
+    A = op.A.toarray()
+    mr = 0 if ref.A is None else ref.A.shape[0]
+    yield ('C16.scaled.shape', A.shape == (mr + 2 * n, n + 1) and len(op.b) == mr + 2 * n and len(op.cType) == mr + 2 * n)
+    if A.shape != (mr + 2 * n, n + 1):
+        return
+    if mr:
+        A0 = ref.A.toarray()
+        yield ('C16.scaled.rows', bool(np.allclose(A[:mr, :n], A0) and np.allclose(A[:mr, n], -ref.b / S_) and np.allclose(op.b[:mr], 0) and op.cType[:mr] == ref.cType))
+    up = np.hstack([np.eye(n), (-ref.u / S_).reshape(n, 1)])
+    lo = np.hstack([np.eye(n), (-ref.l / S_).reshape(n, 1)])
+    yield ('C16.scaled.bounds.upper', bool(np.allclose(A[mr:mr + n], up) and np.allclose(op.b[mr:mr + n], 0) and op.cType[mr:mr + n] == 'U' * n))
+    yield ('C16.scaled.bounds.lower', bool(np.allclose(A[mr + n:], lo) and np.allclose(op.b[mr + n:], 0) and op.cType[mr + n:] == 'L' * n))
+
+
+ScaledSetup.post = _post
